@@ -278,7 +278,10 @@ def gen_map_config(rng: random.Random) -> list[dict]:
         return None
 
     # identifiers in any order, some a prefix of others (1, 10, 11, 100)
-    idents = rng.sample([1, 2, 3, 10, 11, 12, 100, 21, 110], nranges) if rng.random() < 0.6 else list(range(1, nranges + 1))
+    # (identifier 0 is an identifier like any other, also on a later line)
+    c_id = rng.random()
+    idents = rng.sample([1, 2, 3, 10, 11, 12, 100, 21, 110, 0], nranges) if c_id < 0.5 else list(range(1, nranges + 1)) if c_id < 0.75 else list(range(nranges - 1, -1, -1)) if c_id < 0.9 else \
+        rng.sample(range(0, nranges + 1), nranges)
     for i in range(nranges):
         br = take()
         if br is None:
